@@ -996,10 +996,11 @@ def expected_items(key, ir, nm, opts):
                             req = SW_STYLE_TO_REQUEST[ad[0] if ad else r['style']]
                             ver = ('V%d' % r['version']) if r['version'] > 1 else ''
                             nme = 'DBX' + N + nm.s_class(r['name']) + req + ver
-                            if nme in seen:
+                            rnme = 'DBX' + RN + nm.rs_class(r['name']) + req + ver
+                            if (nme, rnme) in seen:
                                 continue
-                            seen.add(nme)
-                            add('', 'class', [], nme, [], 'DBX' + RN + nm.rs_class(r['name']) + req + ver,
+                            seen.add((nme, rnme))
+                            add('', 'class', [], nme, [], rnme,
                                 'request wrapper of ' + w)
         elif key == 'obj_c_types':
             NS, RNS = nm.o_caps(nsn), nm.ro_caps(nsn)
@@ -1246,31 +1247,37 @@ def check_decls(key, E, decls):
             obs[(d['unit'], 'method1', tuple(d['scope']), first)] += 1
     # collisions under the reference naming: not judged
     rcount = collections.Counter(e['rkey'] for e in E)
-    want = collections.Counter()
+    groups = collections.OrderedDict()
     for e in E:
-        want[(e['unit'], e['kind'], e['scope'], e['name'])] += e['count']
-    seen = set()
-    for e in E:
-        k = (e['unit'], e['kind'], e['scope'], e['name'])
-        if k in seen:
-            continue
-        seen.add(k)
-        if rcount[e['rkey']] > 1:
+        groups.setdefault((e['unit'], e['kind'], e['scope'], e['name']), []).append(e)
+    for k, es in groups.items():
+        e = es[0]
+        if any(rcount[x['rkey']] > 1 for x in es):
             out.append(('collision', None, {'item': e['what'], 'name': e['name']}))
             continue
         got = obs.get(k, 0)
-        if got < want[k]:
+        if len({x['rkey'] for x in es}) > 1:
+            # distinct items (distinct names under the documented scheme) were given ONE name by the code
+            out.append(('duplicate-declaration', {'oracle': 'exactly-once', 'backend': key, 'kind': e['kind']},
+                        {'items': [x['what'] for x in es], 'name': e['name'], 'scope': list(e['scope']),
+                         'unit': e['unit'], 'found': got,
+                         'why': 'items with different names under the naming scheme share one generated name'}))
+            continue
+        want = sum(x['count'] for x in es)
+        if got < want:
             out.append(('missing-declaration', {'oracle': 'coverage', 'backend': key, 'kind': e['kind']},
                         {'item': e['what'], 'expected_name': e['name'], 'scope': list(e['scope']), 'unit': e['unit'],
-                         'expected_count': want[k], 'found': got}))
-        elif got > want[k]:
+                         'expected_count': want, 'found': got}))
+        elif got > want:
             out.append(('duplicate-declaration', {'oracle': 'exactly-once', 'backend': key, 'kind': e['kind']},
                         {'item': e['what'], 'name': e['name'], 'scope': list(e['scope']), 'unit': e['unit'],
-                         'expected_count': want[k], 'found': got}))
+                         'expected_count': want, 'found': got}))
     return out
 
 
 _CAP = re.compile(r'^[A-Z]')
+IR_BUILTIN_NAMES = ('Boolean', 'Bytes', 'Float32', 'Float64', 'Int32', 'Int64', 'UInt32', 'UInt64', 'String', 'Timestamp',
+                    'Void', 'List', 'Map', 'Nullable')
 
 
 def leak_causes(ir, alias_names, style):
@@ -1332,6 +1339,8 @@ def swift_closure(ir, nm, outputs, decls_by_key, alias_names=()):
             member_vocab.add(nm.s_var(t['name']))
             for tag, _q in (t.get('subtypes') or []):
                 member_vocab.add(nm.s_var(tag))
+    for pname in IR_BUILTIN_NAMES:
+        member_vocab.add(nm.s_class(pname))
     reported = set()
     for key, tokens in outputs.items():
         dl = sorted((d for d in decls_by_key[key] if not d['scope']), key=lambda d: (d['file'], d['lo']))
@@ -1409,6 +1418,10 @@ def objc_closure(ir, nm, outputs, decls_by_key, alias_names=()):
             vocab.update([nm.o_var(r['name']), nm.o_upper(r['name'])])
             if r['style']:
                 vocab.add(nm.o_upper(r['style']))
+    # the class name of a built-in IR type printed through fmt_class (`[Void_ serialize:...]`): wrong, but not a
+    # user-type name -- outside the letter of the property, not judged
+    for pname in IR_BUILTIN_NAMES:
+        vocab.add(nm.o_upper(pname))
     reported = set()
     for key, tokens in outputs.items():
         for rel, toks in tokens.items():
@@ -1641,22 +1654,32 @@ def gen_case(seed, family):
             'opts': opts}
 
 
+STONE_CFG = """namespace stone_cfg
+
+struct Route
+    host String = "api"
+    style String = "rpc"
+    auth String = "user"
+    is_preview Boolean = false
+    scope String?
+"""
+
+
 def seed_cases():
     d = os.path.join(core.VERIF, 'harness', 'specs')
-    cfg = open(os.path.join(d, 'stone_cfg.stone'), encoding='utf-8').read()
     out = []
     for f in sorted(os.listdir(d)):
         if f.startswith('c17_') and f.endswith('.stone'):
             text = open(os.path.join(d, f), encoding='utf-8').read()
-            # one file may hold several namespaces separated by lines `# ---- file: name.stone`
-            parts = re.split(r'(?m)^# ---- file: (\S+)\s*$', text)
+            # one file may hold several spec files separated by lines `# ---- file: name.stone`
+            parts = re.split(r'(?m)^# ---- file: (\S+)[ \t]*$', text)
             specs = []
-            if parts[0].strip():
+            if len(parts) == 1:
                 specs.append([f, parts[0]])
             for i in range(1, len(parts), 2):
                 specs.append([parts[i], parts[i + 1]])
-            specs.append(['stone_cfg.stone', cfg])
-            for opts in ({'sw_auth': None, 'oc_auth': 'user'}, {'sw_auth': 'app', 'oc_auth': 'app'}):
+            specs.append(['stone_cfg.stone', STONE_CFG])
+            for opts in ({'sw_auth': None, 'oc_auth': 'user'}, {'sw_auth': 'app', 'oc_auth': 'team'}):
                 out.append({'suite': 'decl.swift.spec', 'origin': 'seed:%s' % f, 'specs': specs, 'opts': opts})
     return out
 
@@ -1986,3 +2009,128 @@ def suite_mappers(ck):
             ck.agree('decl.swift.fmt')
         else:
             ck.disagree('decl.swift.fmt', {'mapper': m, 'ty': tj}, r, [text, refs])
+
+
+# ======================================================================================================
+# 12. the spec suite (direct oracle + correspondence) and replay
+# ======================================================================================================
+
+def _pool_size():
+    try:
+        n = len(os.sched_getaffinity(0))
+    except AttributeError:
+        n = os.cpu_count() or 2
+    return max(2, min(8, n // 2))
+
+
+def _features(aj):
+    """coarse coverage dimensions of an API description"""
+    f = collections.Counter()
+    for ns in aj:
+        for t in ns['types']:
+            f[t['kind']] += 1
+            if t['parent']:
+                f['inherits'] += 1
+            if t.get('subtypes'):
+                f['enumerated_subtypes'] += 1
+            for fl in t['fields']:
+                ty = fl['ty']
+                if fl['has_default']:
+                    f['default'] += 1
+                k = ty[0]
+                if k == 'nullable':
+                    f['nullable'] += 1
+                    k = ty[1][0]
+                f['field:' + k] += 1
+                for q in user_types_of(ty):
+                    if q[0] != ns['name']:
+                        f['cross_namespace_ref'] += 1
+        for r in ns['routes']:
+            f['route'] += 1
+            if r['version'] > 1:
+                f['route_version>1'] += 1
+            if r['deprecated']:
+                f['route_deprecated'] += 1
+            f['style:%s' % r['style']] += 1
+    return f
+
+
+def suite_specs(ck):
+    import multiprocessing
+    tasks = [('case', c) for c in seed_cases()]
+    for fam, n in (('clean', ck.scale(70, 1200)), ('clean_types', ck.scale(50, 900)), ('full', ck.scale(30, 500))):
+        for _ in range(n):
+            tasks.append(('gen', (ck.rng.getrandbits(32), fam)))
+    ctx = multiprocessing.get_context('fork')
+    with ctx.Pool(_pool_size()) as pool:
+        results = pool.map(_worker, tasks, chunksize=4)
+    reqs, where = [], []
+    for i, (case, res) in enumerate(results):
+        fam = (case.get('origin') or '?').split(':')[0] + ':' + (case.get('origin') or '?:?').split(':')[1] \
+            if (case.get('origin') or '').startswith('gen:') else 'seed'
+        if 'harness_error' in res:
+            ck.broken.append({'kind': 'harness', 'name': 'decl.swift.spec', 'detail': res['harness_error'][-800:]})
+            continue
+        if 'compile_error' in res:
+            ck.stat('c17.spec_not_accepted')            # a generator slip, not a case of the property
+            continue
+        ck.stat('c17.specs')
+        ck.hist('c17.family', fam)
+        st = res.get('stats', {})
+        nontrivial = (st.get('types', 0) + st.get('routes', 0)) > 0
+        for key, run in res['runs'].items():
+            ck.case((case['origin'], json.dumps(case.get('opts'), sort_keys=True), key), nontrivial)
+            ck.hist('c17.run', key + (':crash' if 'crash' in run else (':lex' if run.get('lex') else ':ok')))
+            ck.stat('c17.files_lexed', run.get('files', 0))
+            ck.stat('c17.bytes_lexed', run.get('bytes', 0))
+            ck.stat('c17.decls_scanned', run.get('decls', 0))
+        for k, v in st.items():
+            if k.startswith('expected_items.') or k.startswith('closure') or k.startswith('not_judged'):
+                ck.stat('c17.' + k, v)
+        if 'api' in res:
+            for k, v in _features(res['api']).items():
+                ck.hist('c17.features', k, v)
+        for what, sig, detail in res['problems']:
+            full = {'suite': 'decl.swift.spec', 'origin': case.get('origin'), 'specs': case['specs'],
+                    'opts': case.get('opts'), 'detail': detail}
+            r = ck.failing_input(what, sig, full)
+            ck.hist('c17.problem', '%s/%s' % (what, sig.get('backend')))
+            if r == 'new' and len(ck.samples) < 6:
+                ck.sample({'what': what, 'signature': sig, 'origin': case.get('origin'), 'detail': detail})
+        if 'api' in res:
+            for key, req in model_requests(res, case.get('opts') or {}):
+                reqs.append(req)
+                where.append((i, key))
+    if reqs:
+        replies = _drive(ck, reqs)
+        per = collections.defaultdict(dict)
+        for (i, key), rep in zip(where, replies):
+            per[i][key] = rep
+        for i, (case, res) in enumerate(results):
+            if i in per:
+                compare_case(ck, case, res, per[i])
+    if len(ck.samples) < 6:
+        for case, res in results[:3]:
+            if 'api' in res:
+                ck.sample({'origin': case.get('origin'), 'runs': {k: {kk: vv for kk, vv in r.items() if kk in
+                                                                        ('files', 'bytes', 'decls', 'crash')}
+                                                                   for k, r in res['runs'].items()}})
+
+
+def replay(ck, path):
+    rec = json.load(open(path))
+    case = rec.get('case', rec)
+    sig = rec.get('signature') or {}
+    res = eval_case({'origin': case.get('origin'), 'specs': case['specs'], 'opts': case.get('opts')})
+    if 'compile_error' in res:
+        print('spec not accepted: %s' % res['compile_error'])
+        return 2
+    hit = [(w, s, d) for w, s, d in res['problems'] if all(s.get(k) == v for k, v in sig.items())]
+    for w, s, d in res['problems']:
+        print('%s %s %s %s' % ('REPRODUCED' if (w, s, d) in hit else 'also', w, json.dumps(s, sort_keys=True),
+                               json.dumps(d, sort_keys=True)[:400]))
+    if hit:
+        print('VIOLATION property=%s replay=%s' % (ck.prop, path))
+        return 1
+    print('not reproduced (%d other problems)' % len(res['problems']))
+    return 0
